@@ -50,6 +50,10 @@ static CPPVisibility preprocessor_vis = V_public;
 // against runaway recursion.
 static const int max_nesting_depth = 200;
 
+// The number of manifest expansions in a row that may yield no token at all
+// (only another manifest to expand) before we give up.
+static const int max_expand_depth = 1000;
+
 // Don't forget to update CPPToken::output() when adding entries.
 static const std::unordered_map<std::string, int> keywords = {
   {"alignas", KW_ALIGNAS},
@@ -2579,7 +2583,18 @@ expand_manifest(const CPPManifest *manifest, const YYLTYPE &loc) {
     << "Expanding " << manifest->_name << " to " << expanded << "\n";
 #endif
 
-  return internal_get_next_token();
+  // Each expansion that produces nothing but another manifest to expand takes
+  // us one level deeper; "#define A() B", "#define B() A" and "A()()()()..."
+  // would otherwise overflow the stack.
+  if (_expand_depth >= max_expand_depth) {
+    error("manifest expansions nested too deeply at " + manifest->_name, loc);
+    _state = S_eof;
+    return CPPToken::eof();
+  }
+  ++_expand_depth;
+  CPPToken token = internal_get_next_token();
+  --_expand_depth;
+  return token;
 }
 
 /**
